@@ -12,7 +12,7 @@ DEFECTS = ["tc-special-set", "tc-dialog-no-close-p", "tc-endbr-keeps-frameset-ok
            "tc-command-void-in-head", "tc-chars-token-granularity", "tc-textarea-stays-in-body",
            "tc-cell-caption-ws-base", "tc-intable-other-drops-reprocess", "tc-frameset-pop-name-only",
            "tc-adoption-inner-loop-3", "tc-anyotherend-ignores-namespace", "tc-isindex-expansion", "tc-no-rb-rtc", "tc-table-pre-lf-kept",
-           "tc-fragment-table-in-table-dropped", "tc-fragment-tokenizer-state", "tc-popuntil-ignores-namespace", "tc-foreign-endtag-p-br", "tc-svg-no-fedropshadow", "tc-no-template", "tc-reset-cell-context", "tc-adoption-no-current-node-step"]
+           "tc-fragment-table-in-table-dropped", "tc-fragment-tokenizer-state", "tc-popuntil-ignores-namespace", "tc-foreign-endtag-p-br", "tc-svg-no-fedropshadow", "tc-no-template", "tc-reset-cell-context", "tc-adoption-no-current-node-step", "tc-nested-dispatch-clears-foster"]
 TOK_DEFECTS = ["tok-commentstart-nul-stays", "tok-commentstartdash-nul-stays", "tok-cdata-nul-replaced"]
 
 
@@ -85,7 +85,7 @@ WITNESS = [  # inputs that exhibit each named deviation (document mode unless a 
     ("<svg><html><desc><frameset>", None), ("<b><i><u><s><em><div>x</b></div></em></s></u>z", None), ("<svg><title><span></title>x", None), ("<ruby><rb>a<rb>b<rtc>c<rt>d", None), ("<table><table>x", "div"), ("<b>x</b>", "noscript"), ("<!--<script></script>x", "script"), ("<isindex action=a prompt=b name=c>", None), ("<table><pre>\nx", None), ("x y", "colgroup"),
     ("<table><tr><td><svg><td><foreignObject><span></td>Foo", None), ("<p><b></p><textarea>\nx", None),
     ("<svg></p><foo>", None), ("<math></br><foo>", None), ("<svg><fedropshadow>", None),
-    ("<template>x</template>y", None), ("<table><template><td>x</template>y", None), ("<select><td>x", "td"), ("<b><p><b><b><b></p></b>x", None),
+    ("<template>x</template>y", None), ("<table><template><td>x</template>y", None), ("<select><td>x", "td"), ("<b><p><b><b><b></p></b>x", None), ("<table><li><li>x", None), ("<table><option><option>x", None), ("<table><dd><p><dt>y", None),
 ]
 
 
@@ -300,7 +300,7 @@ def cover_tests(ctx, spec_listed):
     plans = [("cover", "doc", 3, T_CORE if q else t_all(), 0.04 if q else 0.3),
              ("cover_afe", "doc", 4 if q else 5, T_FMT, 0.02 if q else 0.3),
              ("cover", "tableish", 2, T_CORE if q else t_all(), 0.03 if q else 0.15),
-             ("cover_tbl", "doc", 4 if q else 5, T_TBL, 0.25 if q else 1.0)]
+             ("cover_tbl", "doc", 4 if q else 5, T_TBL, 1.0)]
     for theme, cont, n, toks, frac in plans:
         r = ctx.tlc("MC_TreeCover", cover_cfg(theme, cont, n, spec_listed), "cover-%s-%s" % (theme, cont), heap="16g")
         ctx.notes["cover_prefixes_%s_%s" % (theme, cont)] = len(r.records)
